@@ -176,6 +176,7 @@ func (d *DeadlineChan[T]) recvBuffered(e error) (b T, err error) {
 		// Close publishes closed before it waits for a Send in flight. End of
 		// stream must not be reported while that Send may still enqueue: wait
 		// for it as Close does (Close has cancelled it or is about to).
+		verifYield("dc.recv.barrier")
 		d.m.Lock()
 		d.m.Unlock()
 	}
@@ -260,11 +261,13 @@ func (d *DeadlineChan[T]) Cancel(err error) error {
 // cancels first (which releases that Send) and only then waits for d.m:
 // nothing is enqueued after Close has returned.
 func (d *DeadlineChan[T]) Close() error {
+	verifYield("dc.close.cas")
 	if !d.closed.CompareAndSwap(false, true) {
 		return io.EOF
 	}
 	verifYield("dc.close.cancel")
 	d.deadline.Cancel(io.EOF)
+	verifYield("dc.close.wait")
 	d.m.Lock()
 	d.m.Unlock()
 	return nil
